@@ -79,7 +79,8 @@ func (p *polling) OnRequest(ctx *types.HttpContext) {
 
 // The client sends a request awaiting for us to send data.
 func (p *polling) onPollRequest(ctx *types.HttpContext) {
-	if p.req.Load() != nil {
+	// test and set in one step: of two polls arriving together only one may become the pending poll
+	if !p.req.CompareAndSwap(nil, ctx) {
 		polling_log.Debug("request overlap")
 		// assert: p.res, '.req should be (un)set together'
 		p.OnError("overlap from client", nil)
@@ -87,8 +88,6 @@ func (p *polling) onPollRequest(ctx *types.HttpContext) {
 		ctx.Write(nil)
 		return
 	}
-
-	p.req.Store(ctx)
 
 	polling_log.Debug("setting request")
 
@@ -134,7 +133,8 @@ func (p *polling) flushPendingClose() {
 
 // The client sends a request with data.
 func (p *polling) onDataRequest(ctx *types.HttpContext) {
-	if p.dataCtx.Load() != nil {
+	// test and set in one step: of two data requests arriving together only one may be processed
+	if !p.dataCtx.CompareAndSwap(nil, ctx) {
 		// assert: p.dataRes, '.dataCtx should be (un)set together'
 		p.OnError("data request overlap from client", nil)
 		ctx.SetStatusCode(http.StatusBadRequest)
@@ -145,14 +145,13 @@ func (p *polling) onDataRequest(ctx *types.HttpContext) {
 	isBinary := ctx.Headers().Peek("Content-Type") == "application/octet-stream"
 
 	if isBinary && p.Protocol() == 4 {
+		p.dataCtx.Store(nil)
 		p.OnError("invalid content", nil)
 		// the request still needs its response, like the overlapping one above
 		ctx.SetStatusCode(http.StatusBadRequest)
 		ctx.Write(nil)
 		return
 	}
-
-	p.dataCtx.Store(ctx)
 
 	var cleanup types.Callable
 
